@@ -70,4 +70,28 @@ theorem C02_driver_applyb_line_panic_iff (t a : Term) :
     by_cases h : maxIndex r > USIZE_MAX <;> simp [h, append_ne_PANIC_o]
 
 
+
+theorem nat_line_ne_PANIC (c : Nat) (s : String) : toString c ++ " " ++ s ≠ "PANIC" := by
+  intro h
+  have hm : ' ' ∈ (toString c ++ " " ++ s).toList := by simp
+  rw [h] at hm
+  simp at hm
+
+/-- the same for `reduceb`: the printed line is `PANIC` exactly when the transcription `driverReduceb` of `C02Bounded`
+answers `some none` ("the traversal returned and its result is not representable") -/
+theorem C01_driver_reduceb_line_panic_iff (o : Order) (fuel : Nat) (t : Term) :
+    resReduceB (reduce o 1 fuel t) = "PANIC" ↔ driverReduceb USIZE_MAX o fuel t = some none := by
+  unfold resReduceB driverReduceb
+  cases reduce o 1 fuel t with
+  | none => simp
+  | some p =>
+    obtain ⟨t', c⟩ := p
+    by_cases h : maxIndex t' > USIZE_MAX
+    · simp [h]
+    · have hne := nat_line_ne_PANIC c (showTerm t')
+      simp only [h, if_false]
+      constructor
+      · intro hp; exact absurd hp hne
+      · intro hp; simp at hp
+
 end LC
